@@ -597,10 +597,10 @@ Definition all_ok : str -> bool := fun _ => true.
 Definition ex_valid : config := {|
   cfg_notifier_table := false;
   cfg_zk_servers := [11]; cfg_zk_root := Some 12; cfg_zk_tls := None;
-  cfg_storage := [ {| st_name := 1; st_class := ClsInmemory; st_workers := 20; st_queue_depth := 1; st_legacy := false; st_allow := 7; st_deny := 0 |} ];
+  cfg_storage := [ {| st_name := 1; st_class := ClsInmemory; st_workers := 20; st_intervals := 10; st_queue_depth := 1; st_legacy := false; st_allow := 7; st_deny := 0 |} ];
   cfg_evaluator := [ {| ev_name := 2; ev_class := ClsCaching; ev_expire := 10 |} ];
   cfg_http := [ {| hs_name := 3; hs_addr := 13; hs_tls := None |} ];
-  cfg_notifier := [ {| nt_name := 4; nt_class := ClsNull; nt_legacy := false; nt_allow := 0; nt_deny := 0;
+  cfg_notifier := [ {| nt_name := 4; nt_class := ClsNull; nt_interval := 60; nt_legacy := false; nt_allow := 0; nt_deny := 0;
                        nt_template_open := 14; nt_send_close := false; nt_template_close := 0;
                        nt_url_open := 0; nt_url_close := 0; nt_extra_ca := 0; nt_noverify := false;
                        nt_server := 0; nt_port := 0; nt_from := 0; nt_to := 0; nt_auth := AuthNone |} ];
@@ -624,7 +624,7 @@ Definition ex_bad_regex : config := {|
 Definition ex_bad_depth : config := {|
   cfg_notifier_table := false;
   cfg_zk_servers := cfg_zk_servers ex_valid; cfg_zk_root := cfg_zk_root ex_valid; cfg_zk_tls := None;
-  cfg_storage := [ {| st_name := 1; st_class := ClsInmemory; st_workers := 20; st_queue_depth := -1; st_legacy := false; st_allow := 7; st_deny := 0 |} ];
+  cfg_storage := [ {| st_name := 1; st_class := ClsInmemory; st_workers := 20; st_intervals := 10; st_queue_depth := -1; st_legacy := false; st_allow := 7; st_deny := 0 |} ];
   cfg_evaluator := cfg_evaluator ex_valid; cfg_http := cfg_http ex_valid;
   cfg_notifier := cfg_notifier ex_valid; cfg_cluster := []; cfg_consumer := []; cfg_profiles := []; cfg_sasl := [];
   cfg_tls := []; cfg_files := [14];
@@ -636,7 +636,7 @@ Definition ex_bad_depth : config := {|
 Definition ex_bad_workers : config := {|
   cfg_notifier_table := false;
   cfg_zk_servers := cfg_zk_servers ex_valid; cfg_zk_root := cfg_zk_root ex_valid; cfg_zk_tls := None;
-  cfg_storage := [ {| st_name := 1; st_class := ClsInmemory; st_workers := -1; st_queue_depth := 1; st_legacy := false; st_allow := 7; st_deny := 0 |} ];
+  cfg_storage := [ {| st_name := 1; st_class := ClsInmemory; st_workers := -1; st_intervals := 10; st_queue_depth := 1; st_legacy := false; st_allow := 7; st_deny := 0 |} ];
   cfg_evaluator := cfg_evaluator ex_valid; cfg_http := cfg_http ex_valid;
   cfg_notifier := cfg_notifier ex_valid; cfg_cluster := []; cfg_consumer := []; cfg_profiles := []; cfg_sasl := [];
   cfg_tls := []; cfg_files := [14];
@@ -671,6 +671,29 @@ Example ex_bad_refresh_refused :
   start (canonical_order ex_bad_refresh) ex_bad_refresh fresh_app = Returned 1 nothing_started no_listener /\
   start_list (canonical_order ex_bad_refresh) ex_bad_refresh (coordinators ex_bad_refresh) []
     = Panicked (PanicString ClusterRefresh 5).
+Proof. vm_compute. repeat split. Qed.
+
+(* ex_valid with a notifier interval just above what fits a time.Duration in seconds, and with intervals = 0 in storage
+   (both accepted before 38fa1ff / c110ef6; the process then crashed, or evaluated continuously, after start-up) *)
+Definition ex_bad_sizes : config := {|
+  cfg_notifier_table := false;
+  cfg_zk_servers := cfg_zk_servers ex_valid; cfg_zk_root := cfg_zk_root ex_valid; cfg_zk_tls := None;
+  cfg_storage := [ {| st_name := 1; st_class := ClsInmemory; st_workers := 20; st_intervals := 0; st_queue_depth := 1; st_legacy := false; st_allow := 7; st_deny := 0 |} ];
+  cfg_evaluator := cfg_evaluator ex_valid; cfg_http := cfg_http ex_valid;
+  cfg_notifier := [ {| nt_name := 4; nt_class := ClsNull; nt_interval := 9223372037; nt_legacy := false; nt_allow := 0; nt_deny := 0;
+                       nt_template_open := 14; nt_send_close := false; nt_template_close := 0;
+                       nt_url_open := 0; nt_url_close := 0; nt_extra_ca := 0; nt_noverify := false;
+                       nt_server := 0; nt_port := 0; nt_from := 0; nt_to := 0; nt_auth := AuthNone |} ];
+  cfg_cluster := []; cfg_consumer := []; cfg_profiles := []; cfg_sasl := [];
+  cfg_tls := []; cfg_files := [14];
+  regex_ok := all_ok; template_ok := template_ok ex_valid; hostport_ok := all_ok; listen_ok := all_ok;
+  zkpath_ok := all_ok; zkroot_trivial := fun s => s =? 12; zkcons_ok := all_ok; kversion_ok := all_ok; mail_ok := fun _ _ => true;
+  keypair_ok := fun _ _ => true; ca_pem_ok := all_ok; reachable := fun _ => false |}.
+
+Example ex_bad_sizes_refused :
+  requirements ex_bad_sizes = [(StorageIntervals, 1); (NotifierInterval, 4)] /\
+  start (canonical_order ex_bad_sizes) ex_bad_sizes used_app = Returned 1 nothing_started no_listener /\
+  configured (canonical_order ex_bad_sizes) ex_bad_sizes = [CZookeeper; CStorage].
 Proof. vm_compute. repeat split. Qed.
 
 (* ex_valid without zookeeper.root-path: the default "/burrow" has to be created on the (unreachable) ensemble *)
